@@ -144,6 +144,7 @@ class _Normalizer:
             self._each_function(m, self._short_circuit_forms)
             self._each_function(m, self._record_rows)
             self._each_function(m, self._record_locals)
+            self._each_function(m, self._inverse_lookup)
             self._each_function(m, self._scalar_replace)
             self._each_function(m, self._spread_keywords)
             self._each_function(m, self._closure_factories)
@@ -687,14 +688,25 @@ class _Normalizer:
                 # constructor: only ``self.f = <expr of parameters / constants>``
                 fields: List[str] = []
                 init_body = _body(init.node)
-                if not all(isinstance(b, ast.Assign) and len(b.targets) == 1 and isinstance(b.targets[0], ast.Attribute)
-                           and isinstance(b.targets[0].value, ast.Name) and b.targets[0].value.id == init.params[0] for b in init_body):
+                # straight-line constructor: assignments to fields of self and to its own locals
+                def rooted_at_self(t):
+                    while isinstance(t, ast.Attribute):
+                        t = t.value
+                    return isinstance(t, ast.Name) and t.id == init.params[0]
+                if not all(isinstance(b, ast.Assign) and len(b.targets) == 1 and (
+                        (isinstance(b.targets[0], ast.Attribute) and rooted_at_self(b.targets[0])) or isinstance(b.targets[0], ast.Name))
+                        for b in init_body):
+                    continue
+                if not me._inlinable(init):
+                    continue
+                if K.module is not me.m and not all(me._portable_body(m_) for m_ in K.methods.values()):
                     continue
                 exp = me._expand(init, ast.Name(id=x, ctx=ast.Load()), ctor)
                 if exp is None:
                     continue
                 for b in init_body:
-                    fields.append(b.targets[0].attr)
+                    if isinstance(b.targets[0], ast.Attribute) and isinstance(b.targets[0].value, ast.Name):
+                        fields.append(b.targets[0].attr)
                 new_stmts = list(exp[0])
                 # methods and properties used
                 usable = True
@@ -803,6 +815,132 @@ class _Normalizer:
                 me.stats['scalar_replaced'] = me.stats.get('scalar_replaced', 0) + 1
                 done = True
                 break
+
+    def _inverse_lookup(self, fnode, cls, local):
+        """``KINDS.get(x) == 'a'`` / ``KINDS[x] == 'a'`` with KINDS a constant dict of the package (this module's or another's) whose
+        values are constants: the test on the key it stands for, ``x == k`` (one key has that value) or ``x in (k1, k2)``; also
+        through a local bound once to the look-up and used only in such comparisons.  (``!=`` gives the negation.  A key outside
+        the table makes ``.get`` answer None, which equals no constant value: the rewritten test is false there too.)"""
+        me = self
+
+        def table_of(e):
+            """(keys exprs, folded values) of a constant dict display named by ``e``"""
+            try:
+                r = me.repo.resolve_expr(e, me.m, cls)
+            except Exception:
+                return None
+            if not (isinstance(r, tuple) and len(r) == 3 and r[0] == 'assign'):
+                return None
+            mod, name = r[1], r[2]
+            vals = mod.assigns.get(name)
+            if not vals or len(vals) != 1 or not isinstance(vals[0], ast.Dict) or any(k is None for k in vals[0].keys):
+                return None
+            if me.repo.table_writers(mod.name, name):
+                return None
+            out = []
+            for k, v in zip(vals[0].keys, vals[0].values):
+                fv = me.repo.try_fold(v, mod)
+                if not isinstance(fv, (str, int, bytes)) or isinstance(fv, bool):
+                    return None
+                # the key as an expression valid here: qualified through the module when it is not this one
+                out.append((k, fv, mod))
+            return out
+
+        def lookup(e):
+            """(table rows, key expression) when e is T.get(x) / T[x]"""
+            if isinstance(e, ast.Call) and isinstance(e.func, ast.Attribute) and e.func.attr == 'get' and len(e.args) == 1 and not e.keywords:
+                t = table_of(e.func.value)
+                if t is not None and _is_simple(e.args[0]):
+                    return t, e.args[0]
+            if isinstance(e, ast.Subscript) and not isinstance(e.slice, ast.Slice) and _is_simple(e.slice):
+                t = table_of(e.value)
+                if t is not None:
+                    return t, e.slice
+            return None
+        binds: Dict[str, List[ast.expr]] = {}
+        for n in ast.walk(fnode):
+            if isinstance(n, ast.Assign) and len(n.targets) == 1 and isinstance(n.targets[0], ast.Name):
+                binds.setdefault(n.targets[0].id, []).append(n.value)
+            elif isinstance(n, (ast.For, ast.With, ast.AugAssign, ast.NamedExpr)):
+                for y in ast.walk(n.target if hasattr(n, 'target') else n):
+                    if isinstance(y, ast.Name) and isinstance(y.ctx, ast.Store):
+                        binds.setdefault(y.id, []).append(None)
+        via_local = {}
+        for nm, vs in binds.items():
+            if len(vs) == 1 and vs[0] is not None and lookup(vs[0]) is not None:
+                # used only as a side of == / != with something else
+                uses = [y for y in ast.walk(fnode) if isinstance(y, ast.Name) and y.id == nm and isinstance(y.ctx, ast.Load)]
+                cmps = [c for c in ast.walk(fnode) if isinstance(c, ast.Compare) and len(c.ops) == 1 and isinstance(c.ops[0], (ast.Eq, ast.NotEq))
+                        and any(isinstance(sd, ast.Name) and sd.id == nm for sd in (c.left, c.comparators[0]))]
+                keyn = {y.id for y in ast.walk(lookup(vs[0])[1]) if isinstance(y, ast.Name)}
+                if uses and len(uses) == len(cmps) and not any(len(binds.get(k_, [])) > 1 for k_ in keyn):
+                    via_local[nm] = vs[0]
+
+        def key_expr(k, mod):
+            if mod is me.m:
+                return copy.deepcopy(k)
+            # names of the other module, reached through the name this module knows it by
+            alias = next((a_ for a_, imp in me.m.imports.items() if getattr(imp, 'name', None) == mod.name), None)
+            if alias is None:
+                return None
+
+            class Q(ast.NodeTransformer):
+                def visit_Name(self_, n):
+                    if n.id in mod.assigns or n.id in mod.classes or n.id in mod.functions or n.id in mod.imports:
+                        return ast.copy_location(ast.Attribute(value=ast.Name(id=alias, ctx=ast.Load()), attr=n.id, ctx=ast.Load()), n)
+                    return n
+            k2 = Q().visit(copy.deepcopy(k))
+            # ``suboperations.dimsemessages.X`` is ``dimsemessages.X`` when this module imports that module under the same name
+            class Z(ast.NodeTransformer):
+                def visit_Attribute(self_, n):
+                    n = self_.generic_visit(n)
+                    if isinstance(n.value, ast.Attribute) and isinstance(n.value.value, ast.Name) and n.value.value.id == alias \
+                            and n.value.attr in me.m.imports and n.value.attr in mod.imports \
+                            and getattr(me.m.imports[n.value.attr], 'name', 1) == getattr(mod.imports[n.value.attr], 'name', 2):
+                        return ast.copy_location(ast.Attribute(value=ast.Name(id=n.value.attr, ctx=ast.Load()), attr=n.attr, ctx=n.ctx), n)
+                    return n
+            return Z().visit(k2)
+
+        class T(ast.NodeTransformer):
+            def visit_FunctionDef(self_, n):
+                return n if n is not fnode else self_.generic_visit(n)
+            visit_AsyncFunctionDef = visit_FunctionDef
+
+            def visit_Compare(self_, n):
+                n = self_.generic_visit(n)
+                if len(n.ops) != 1 or not isinstance(n.ops[0], (ast.Eq, ast.NotEq)):
+                    return n
+                for a_, b_ in ((n.left, n.comparators[0]), (n.comparators[0], n.left)):
+                    src = via_local.get(a_.id) if isinstance(a_, ast.Name) else a_
+                    lk = lookup(src) if src is not None else None
+                    if lk is None:
+                        continue
+                    want = me.repo.try_fold(b_, me.m, cls)
+                    if not isinstance(want, (str, int, bytes)) or isinstance(want, bool):
+                        continue
+                    rows, key = lk
+                    ks = [key_expr(k, mod) for k, fv, mod in rows if fv == want and type(fv) is type(want)]
+                    if not ks or any(k is None for k in ks):
+                        continue
+                    if len(ks) == 1:
+                        new = ast.Compare(left=copy.deepcopy(key), ops=[ast.Eq() if isinstance(n.ops[0], ast.Eq) else ast.NotEq()], comparators=[ks[0]])
+                    else:
+                        new = ast.Compare(left=copy.deepcopy(key), ops=[ast.In() if isinstance(n.ops[0], ast.Eq) else ast.NotIn()],
+                                          comparators=[ast.Tuple(elts=ks, ctx=ast.Load())])
+                    me.stats['inverse_lookups'] = me.stats.get('inverse_lookups', 0) + 1
+                    return ast.copy_location(new, n)
+                return n
+        T().visit(fnode)
+        # a look-up local that no comparison reads any more is gone
+        for nm in via_local:
+            if not any(isinstance(y, ast.Name) and y.id == nm and isinstance(y.ctx, ast.Load) for y in ast.walk(fnode)):
+                for blk in _blocks(fnode):
+                    for st in list(blk):
+                        if isinstance(st, ast.Assign) and len(st.targets) == 1 and isinstance(st.targets[0], ast.Name) and st.targets[0].id == nm:
+                            blk.remove(st)
+                            if not blk:
+                                blk.append(ast.Pass())
+        ast.fix_missing_locations(fnode)
 
     def _spread_keywords(self, fnode, cls, local):
         """``f(a, **{'k': v, 'm': w})`` -> ``f(a, k=v, m=w)`` (a dict display with constant string keys spread into a call)"""
